@@ -4,7 +4,7 @@ import json, os, subprocess
 VERIF = os.path.dirname(os.path.dirname(os.path.abspath(__file__)))
 
 HOOK_COMMITS = ["c3d3db1"]
-FIX_COMMITS = ["b26044a"]
+FIX_COMMITS = ["b26044a", "584cccc"]
 
 CHECKS = {
  "C01": dict(
@@ -38,6 +38,22 @@ CHECKS = {
     note="Trusted: TLC; harness recomputes glyph boxes from stored outlines; fontTools recalculates some header fields on save (those are then fontTools' values, still required to be consistent).",
     technique="TLA+ metrics model; TLC exhaustive loop check + TLC validation of observed tables of real compiles",
     design="5 C04"),
+ "C07": dict(
+    text="Purity.tla states `no step of a call without inplace changes the sources` as an action property over the call "
+         "protocol (incl. compile_variable's save/override/restore of compiler options and the raise path) and TLC checks it; "
+         "every schedule (source x 9 compile functions x option combinations x 1-2 calls, generated sources and all "
+         "tests/data fixtures) is executed with a structural snapshot of every source component at EVERY hook and TLC "
+         "validates each call's event sequence, so a rejection names the stage that wrote.",
+    note="Trusted: TLC; the snapshot function (what it covers is listed in the evidence assumptions).",
+    technique="TLA+ call-protocol model with action property; TLC check + per-stage TLC trace validation of real call histories",
+    design="5 C07"),
+ "C08": dict(
+    text="The memo machine of Purity.tla (key = function, options without inplace, content-before; environment deliberately "
+         "not in the key) is checked by TLC; call histories are run in fresh subprocesses under several PYTHONHASHSEED values, "
+         "both UFO libraries, memory vs disk, and TLC rebuilds the memo over the union of all logs: one key, one digest.",
+    note="Trusted: TLC; sha256 of saved bytes as opaque observation; SOURCE_DATE_EPOCH pinned.",
+    technique="TLA+ history/memo model; TLC check + TLC validation of digests logged by fresh subprocesses across environments",
+    design="5 C08"),
  "C12": dict(
     text="CffOptions.tla models the option routing of the CFF path and is checked exhaustively (all 18 combinations); every "
          "combination is executed on generated sources and each trace is validated by TLC against the same source-derived "
